@@ -152,6 +152,24 @@ theorem mapping_fallback (r : Repo) (a : Api) :
   · rw [h]; rfl
   · rw [h]; rfl
 
+/-- Every read of DEFAULT_API in load_api_specific_resource_module goes through the ACTIVE configuration
+    `CONF` (= Configuration(), whose backing dict may be replaced), never through the module-level
+    template `default_conf` — so `r.defaultApi` of the model is the default level of the configuration in
+    force, and `mapping_fallback`/`module_perm_default` speak about that one (AST regenerated each run). -/
+theorem default_read_from_active_conf :
+    defaultReads ≠ [] ∧ defaultReads.all (fun o => o == "CONF") = true := by
+  decide
+
+/-- the fallback follows the configuration: for any default level d that has a non-empty mapping file, a
+    request for a level without one loads d's mapping (every repository, every argument) -/
+theorem mapping_fallback_follows_config (r : Repo) (d : Int) (a : Api)
+    (hmiss : ({ r with defaultApi := d } : Repo).hasMap (({ r with defaultApi := d } : Repo).effective a).fmt = false)
+    (hd : ({ r with defaultApi := d } : Repo).hasMap (toString d) = true) :
+    chooseModule { r with defaultApi := d } .maps a = .map (toString d) := by
+  rw [mapping_fallback, hmiss]
+  simp only [Bool.false_eq_true, if_false]
+  rw [hd]; rfl
+
 /-- in the repository as it is now a mapping request never comes back empty -/
 theorem gen_mapping_total (a : Api) :
     ∃ name, chooseModule genRepo .maps a = .map name ∧ name ∈ mapNames := by
@@ -208,5 +226,6 @@ example : chooseModule genRepo .perms (.int 0) = .perm 4 := by decide
 example : chooseModule genRepo .perms (.int 20) = .perm 19 := by decide
 example : chooseModule genRepo .maps (.int 20) = .map "16" := by decide
 example : chooseModule genRepo .maps (.int 21) = .map "21" := by decide
+example : chooseModule { genRepo with defaultApi := 19 } .maps (.int 20) = .map "19" := by decide
 
 end AgVerif.C39
